@@ -20,7 +20,7 @@ func init() {
 		return runGenCheck(o, "exploration",
 			genBudget{cases: 400, wall: 90 * time.Second, shrinkN: 30, shrinkT: 60 * time.Second},
 			genBudget{cases: 4000, wall: 25 * time.Minute, shrinkN: 150, shrinkT: 8 * time.Minute},
-			"one case = one history over a generated module: 1-4 tape-drawn steps (edit the sources: retype/add/remove fields, add/remove/rename calls, change the map type flowing from an inner derive call into an outer one, add types, remove all calls; run; run interrupted by a crash before an operation or inside a write; run hitting ENOSPC mid-write) followed by a fault-free run, whose exit status and derived.gen.go bytes must equal those of a from-scratch run on the same sources under the same map plan; then, enumerated per history: a crash at every mutating-operation boundary and at a set of byte offsets of every write of the final run, and derived.gen.go replaced by the first k bytes of the previous and of the new output, each followed by a recovery run that must reach the scratch result; distinct = distinct (world, history) hash; non-trivial = history contains an edit or a fault",
+			"one case = one history over a generated module: 1-4 tape-drawn steps (edit the sources: retype/add/remove fields, add/remove/rename calls, change the map type flowing from an inner derive call into an outer one, add types, remove all calls; run; run interrupted by a crash before an operation or inside a write; run hitting ENOSPC mid-write) followed by a fault-free run, whose exit status and derived.gen.go bytes must equal those of a from-scratch run on the same sources under the same map plan; then, per history, the recovery points are enumerated (a crash at every mutating-operation boundary and at a set of byte offsets of every write of the final run: 0, 1, header end +-1, line ends, n/2, n-1, in the thorough tier also every 64th byte; derived.gen.go replaced by the first k bytes of the previous and of the new output at the same offsets) and a tape-drawn share of them is executed (a twelfth in the quick tier, a third in the thorough tier, always offset 0 and the first write), each followed by a recovery run that must reach the scratch result; distinct = distinct (world, history) hash; non-trivial = history contains an edit or a fault",
 			[]string{"process-crash model: bytes handed to write(2) survive a crash (no power-loss reordering; goderive never syncs and the property does not mention it)"})
 	}
 	genCases["C07"] = c07Case
@@ -189,7 +189,7 @@ func crashOffsets(n int, content string, thorough bool) []int {
 		}
 	}
 	if thorough {
-		for k := 0; k < n; k += 16 {
+		for k := 0; k < n; k += 64 {
 			set[k] = true
 		}
 	}
@@ -464,11 +464,19 @@ func c07Case(ctx *genCtx, ts *tape.Set, dir string) *genResult {
 	// quick tier: a tape-drawn sample of the enumerated recovery points (the
 	// thorough tier enumerates all of them for every history)
 	st := ts.Fork("sweep")
+	cut := false
 	keep := func(always bool) bool {
-		if thorough || always {
+		if !ctx.deadline.IsZero() && time.Now().After(ctx.deadline) {
+			cut = true
+			return false // the batch's wall-clock budget is used up: finish this history without further recovery points
+		}
+		if always {
 			return true
 		}
-		return st.Intn(8) == 0
+		if thorough {
+			return st.Intn(3) == 0 // a third of the enumerated points per history, so that the batch covers many histories
+		}
+		return st.Intn(12) == 0
 	}
 	// (1) crash at every mutating-operation boundary and inside every write
 	for _, o := range finalOps {
@@ -531,6 +539,10 @@ func c07Case(ctx *genCtx, ts *tape.Set, dir string) *genResult {
 			}
 		}
 	}
-	res.probe("sweep.completed")
+	if cut {
+		res.probe("sweep.cut_short_by_budget")
+	} else {
+		res.probe("sweep.completed")
+	}
 	return res
 }
